@@ -264,6 +264,18 @@ def part_refinement(sc):
     badr = [dict(r, bits=[{"op": "not", "args": [r["bits"][0]]}] + r["bits"][1:]) for r in recs]
     v, _ = tlc.run_cases("Trace_BitBlast", badr, sc)
     expect(all(x.startswith("drift") for x in v.values()), "an operator result with one bit negated is drift for BitBlast.tla")
+    # Inline: real call translations of a few PairGen pairs; corruption = the actual arguments recorded in swapped order
+    cfg = "SPECIFICATION Spec\nCONSTANT Family = \"int2\"\nINVARIANT Emit\nCHECK_DEADLOCK FALSE\n"
+    r = tlc.run_model("PairGen", cfg, sc, workers=4, timeout=600, tags=("P",))
+    pairs = [json.loads(x[1]) for x in r["prints"]["P"]]
+    pairs = [p for p in pairs if p["route"] == "defs"][:40]
+    irecs = c07.inline_job({"pairs": list(enumerate(pairs))})
+    v, _ = tlc.run_cases("Trace_Inline", irecs, sc)
+    expect(len(irecs) >= 10 and all(x == "conform" for x in v.values()), f"real call translations conform to Inline.tla ({len(irecs)})")
+    badi = [dict(x, actuals=x["actuals"][::-1]) for x in irecs if len(x["actuals"]) == 2 and x["actuals"][0] != x["actuals"][1] and not x["exc"]]
+    v, _ = tlc.run_cases("Trace_Inline", badi, sc)
+    nd = sum(1 for x in v.values() if x != "conform")
+    expect(len(badi) >= 5 and nd >= len(badi) // 2, f"a call recorded with its actual arguments swapped is (mostly) not what Inline.tla predicts ({nd}/{len(badi)})")
 
 
 def main():
